@@ -64,13 +64,20 @@ fn token_alphabet() -> Vec<(&'static str, Tok, &'static str)> {
 
 const PATH_ALPHABET: [char; 9] = ['a', 'b', 'ż', '.', '-', 'A', '/', '$', '*'];
 
+/// Second, small path alphabet: control characters that are legal in file names (line feed, tab).
+const PATH_ALPHABET_CTL: [char; 5] = ['a', 'b', '\n', '\t', '/'];
+
 fn paths_upto(len: usize) -> Vec<String> {
+    paths_over(&PATH_ALPHABET, len)
+}
+
+fn paths_over(alphabet: &[char], len: usize) -> Vec<String> {
     let mut out = Vec::new();
     let mut cur: Vec<String> = vec![String::new()];
     for _ in 0..len {
         let mut next = Vec::new();
         for s in &cur {
-            for c in PATH_ALPHABET {
+            for c in alphabet.iter().copied() {
                 if c == '/' && s.ends_with('/') {
                     continue; // no empty components
                 }
@@ -602,7 +609,8 @@ pub fn main(args: &[String]) {
         return;
     }
     let pathlen: usize = arg_val(args, "--pathlen").unwrap_or("4").parse().unwrap();
-    let paths: Vec<(String, Vec<char>)> = paths_upto(pathlen)
+    let all_paths = if arg_val(args, "--alpha") == Some("ctl") { paths_over(&PATH_ALPHABET_CTL, pathlen) } else { paths_upto(pathlen) };
+    let paths: Vec<(String, Vec<char>)> = all_paths
         .into_iter()
         .map(|s| {
             let c = s.chars().collect();
